@@ -1097,3 +1097,158 @@ def contract_compressed_all_paths(mk, geom, chi, opt):
         mk.eq(f"contract_compressed(optimize={p}, max_bond={chi}, cutoff=0.0, {opt}) == exact value "
               f"({len(w.pre)} compressions, all rank-safe)", val, want)
     mk.eq("the network is left alone", exact(tn, out), want)
+
+
+# ---------------------------------------------------------------------- contract_around
+
+CA_OPTS = {
+    "default": {},
+    "early": dict(compress_late=False),
+    "tg0": dict(tree_gauge_distance=0),
+    "tg2": dict(tree_gauge_distance=2),
+    "basic": dict(compress_opts=dict(mode="basic"), canonize_distance=1, canonize_after_distance=1),
+    "all-gauge": dict(gauge_boundary_only=False),
+    "span": dict(compress_span=True),
+    "eq": dict(equalize_norms=1.0, tree_gauge_distance=0),
+}
+
+
+def _ca_params():
+    out = []
+    for geom, targets in (("ring4", (["I0"], ["I0", "I1"])), ("chord4", (["I0"], ["I1"], ["I1", "I2"])),
+                          ("ladder6", (["I0"], ["I1"], ["I1", "I4"])), ("lat33", (["I1,1"], ["I0,0"], ["X1"])),
+                          ("ring4open", (["I0"], ["I1"]))):
+        for tg in targets:
+            for chi in (2, 4, None):
+                for opt in CA_OPTS:
+                    if chi != 2 and opt not in ("default", "early"):
+                        continue
+                    q = opt in ("default", "early") and chi == 2 and geom in ("ring4", "chord4", "lat33") and tg in (["I0"], ["I1,1"])
+                    out.append({"geom": geom, "tags": tuple(tg), "chi": chi, "opt": opt, "_tiers": _Q if q else _T})
+    return out
+
+
+def _ca_network(mk, geom):
+    if geom == "lat33":
+        tn = lattice2d(mk, 3, 3, "rows", kind="real", numkind="cplx")
+        return tn, ()
+    return graph_tn(mk, geom, kind="real", numkind="cplx")
+
+
+@obligation(PROP, params=_ca_params(), **_CERT)
+@certified
+def contract_around_exact(mk, geom, tags, chi, opt):
+    """TensorNetwork.contract_around(tags, which='any'): whenever every compression met a bond
+    whose rank bound is within the cap the result still denotes the exact value; every bond that
+    was compressed is within the cap right afterwards"""
+    mk.encodes(tc.TensorNetwork.contract_around, tc.TensorNetwork._contract_around_tids, tc.TensorNetwork.get_tree_span,
+               tc.TensorNetwork._contract_compressed_tid_sequence, tc.TensorNetwork._compress_between_tids)
+    tn, out = _ca_network(mk, geom)
+    want = exact(tn, out)
+    w = Watch()
+    res = tn.contract_around(list(tags), which="any", max_bond=chi, cutoff=0.0, **w.kw(), **CA_OPTS[opt])
+    for l, b, r in w.post:
+        mk.same(f"a bond just compressed is within the cap {chi}", max(b, chi), chi)
+    if w.rank_safe(chi):
+        if isinstance(res, qtn.TensorNetwork):
+            val = exact(res, out)
+        elif isinstance(res, qtn.Tensor):
+            val = res.transpose(*out).data if out else res.data
+        else:
+            val = res
+        mk.eq(f"contract_around({list(tags)}, which='any', max_bond={chi}, cutoff=0.0, {opt}) denotes the exact value "
+              f"({len(w.pre)} compressions, all rank-safe)", val, want)
+    else:
+        mk.note("a genuinely truncating compression happened: exactness not promised, cap goals only")
+        mk.same("cap goals only", True, True)
+    mk.eq("the network is left alone", exact(tn, out), want)
+
+
+# ---------------------------------------------------------------------- compress_between: local gauge choices
+
+CB_OPTS = {
+    "basic": {},
+    "absorb-left": dict(absorb="left"),
+    "absorb-right": dict(absorb="right"),
+    "absorb-none": dict(absorb=None),
+    "reduced-false": dict(reduced=False),
+    "reduced-left": dict(reduced="left", absorb="right"),
+    "reduced-right": dict(reduced="right", absorb="left"),
+    "svd": dict(method="svd"),
+    "canon1": dict(canonize_distance=1),
+    "canon2": dict(canonize_distance=2),
+    "canon1-after1": dict(canonize_distance=1, canonize_after_distance=1),
+    "canon-incl": dict(canonize_distance=2, canonize_opts=dict(include=None, exclude=None)),
+    "eq": dict(equalize_norms=1.0),
+    "virtual-tree": dict(mode="virtual-tree", canonize_distance=1),
+    "virtual-tree2": dict(mode="virtual-tree", canonize_distance=2),
+    "full-bond": dict(mode="full-bond"),
+    "full-bond-svd": dict(mode="full-bond", method="svd"),
+    "local-fit": dict(mode="local-fit"),
+    "gauges": dict(gauges="su"),
+}
+
+
+def chain_tn(mk, L=4, kind="real", numkind=None, bond=2, legs=2, pair=(1, 2)):
+    """open chain of L tensors, `legs` outer labels (dimension 2) on each tensor; the pair to be
+    compressed therefore has outer size 2**legs * (neighbour bond) > its bond"""
+    k = kind if mk.sym else (numkind or kind)
+    ts = []
+    for i in range(L):
+        inds, shape = [], []
+        if i > 0:
+            inds.append(f"b{i - 1}{i}")
+            shape.append(bond)
+        if i < L - 1:
+            inds.append(f"b{i}{i + 1}")
+            shape.append(bond)
+        for c in range(legs):
+            inds.append(f"o{i}{c}")
+            shape.append(2)
+        ts.append(qtn.Tensor(mk.array(f"T{i}", tuple(shape), k), inds, tags=[f"I{i}"]))
+    tn = qtn.TensorNetwork(ts)
+    out = tuple(f"o{i}{c}" for i in range(L) for c in range(legs))
+    return tn, out
+
+
+def _cb_params():
+    out = []
+    for opt in CB_OPTS:
+        for cap in (2, 3, None):
+            q = opt in ("basic", "absorb-right", "canon1", "reduced-false") and cap == 2
+            out.append({"opt": opt, "cap": cap, "_tiers": _Q if q else _T})
+    return out
+
+
+@obligation(PROP, params=_cb_params(), **_CERT)
+@certified
+def compress_between_exact(mk, opt, cap):
+    """TensorNetwork.compress_between on the middle bond (size 2) of an open chain whose two
+    sides are larger than the cap, cap >= bond size, cutoff 0: every local gauge choice leaves the
+    dense tensor of the network unchanged"""
+    mk.encodes(tc.TensorNetwork.compress_between, tc.TensorNetwork._compress_between_tids, tc.tensor_compress_bond,
+               tc.TensorNetwork._canonize_around_tids, tc.TensorNetwork._gauge_local_tids,
+               tc.TensorNetwork._compress_between_virtual_tree_tids, tc.TensorNetwork._compress_between_full_bond_tids,
+               tc.TensorNetwork._compress_between_local_fit, tc.TensorNetwork._compute_bond_env, tc.TensorNetwork._compute_tree_gauges)
+    if mk.sym and opt in ("local-fit",):
+        return _numeric_only(mk, "local fit iterates (alternating least squares)")
+    L = 4
+    tn, out = chain_tn(mk, L, kind="real", numkind="cplx", legs=1)
+    want = exact(tn, out)
+    kw = dict(CB_OPTS[opt])
+    if kw.get("gauges") == "su":
+        kw["gauges"] = {ix: mk.array(f"g{ix}", (2,), "pos") for ix in ("b01", "b12", "b23")}
+        # a (network, gauges) pair denotes the network with the gauges inserted on their bonds
+        want = ref.sum_of_products(ref.tn_terms(tn) + [(g, (ix,)) for ix, g in kw["gauges"].items()], out)
+    with spectrum("pos"):
+        tn.compress_between("I1", "I2", max_bond=cap, cutoff=0.0, **kw)
+    mk.same("bond within the cap", tn.ind_size("b12") <= (cap or 2), True)
+    if isinstance(kw.get("gauges"), dict):
+        got = ref.sum_of_products(ref.tn_terms(tn) + [(g, (ix,)) for ix, g in kw["gauges"].items()], out)
+        if kw.get("equalize_norms"):
+            got = got * 10 ** tn.exponent
+    elif kw.get("absorb", "both") is None and tn.num_tensors == L:
+        got = exact(tn, out)
+    else:
+        got = exact(tn, out)
+    mk.eq(f"compress_between(I1, I2, max_bond={cap}, cutoff=0.0, {opt}): dense tensor unchanged", got, want)
